@@ -43,7 +43,11 @@ func init() {
 		"vIteInt":      func(it *Interp, fr *frame, cc *ssa.CallCommon, a []Value) Value { return it.St.Ite(a[0].(*Term), a[1].(*Term), a[2].(*Term)) },
 		"vBudget":      inBudget,
 		"vConcretize":  func(it *Interp, fr *frame, cc *ssa.CallCommon, a []Value) Value { return it.c64(int64(it.concretize(a[0].(*Term)))) },
-		"vMapOrderAll": func(it *Interp, fr *frame, cc *ssa.CallCommon, a []Value) Value { it.MapOrderAll = a[0].(*Term).IsTrue(); return nil },
+		"vMapOrderAll": func(it *Interp, fr *frame, cc *ssa.CallCommon, a []Value) Value {
+			it.MapOrderAll = a[0].(*Term).IsTrue()
+			it.GoOrderAll = it.MapOrderAll
+			return nil
+		},
 		"vRegister":    func(it *Interp, fr *frame, cc *ssa.CallCommon, a []Value) Value { return nil },
 		"vHavoc":       inHavoc,
 		"vNoNUL":       inNoNUL,
